@@ -41,6 +41,16 @@ CHECKS = {
             "Trusted: TLC; identity func/model exposes the tensors passed to func; negative indices out of scope; conflicting "
             "substitutions unspecified ('any'); two insertions at one coordinate may appear in either order.",
             "DESIGN.md §5 C10"),
+    "C09": (["ISMOps", "ISM", "ISM_Trace"],
+            "TLA+ spec (ISMOps/ISM) model-checked with TLC (self-mutant and centring laws as invariants); every enumerated "
+            "window/batch-size/output-form replayed into saturation_mutagenesis on an exact-integer model; random calls validated "
+            "against ISM_Trace",
+            "TLC enumerates every (start, end) window incl. negative ends, batch sizes, tensor/tuple outputs, target selections and "
+            "hypothetical flags on short sequences, with y0, y_hat and the scaled attribution specified from the definition; each is "
+            "executed and compared for equality (exact integers in float64).",
+            "Trusted: TLC; the PosCoded model is defined twice (TLA+ and torch) and cross-checked through y0; attribution compared "
+            "after scaling by A*|targets|.",
+            "DESIGN.md §5 C09"),
 }
 
 ALL = ["C%02d" % i for i in range(1, 21)]
